@@ -1,4 +1,8 @@
-import LitexProofs.Csr.Bank
+import LitexProofs.Csr.Atomic
+import LitexProofs.Csr.Fields
+import LitexProofs.Csr.Array
+import LitexProofs.Csr.Gather
+import LitexProofs.Csr.Sram
 /-
   C12 — CSR banks give software exact, side-effect-free register semantics.
 
@@ -128,6 +132,88 @@ theorem bank_atomic_commit (c : BankCfg) (hfit : c.Fits) (s : BankState) (i : Ba
   simp only [r', next_reg c s i k hv.1, hwe, hadr, if_true, c.hitReg_wordAdr k 0 hfit hv, regNext, hkind, hat,
     c.simple_word k 0 hv, and_self]
 
+/-- The value software intends when it writes the data words `ds` to the ascending addresses of an `n`-word
+    register: with ordering big the lowest address carries the most significant word, with ordering little the
+    least significant one. -/
+def intended (ord : WordOrdering) (bw size n : Nat) (ds : List Nat) : Nat :=
+  trunc size (cat (match ord with
+    | .big => wordPairsBig bw size n ds
+    | .little => (List.range n).map fun j => (wordBits bw size j, ds.getD j 0)))
+
+/-
+  Full statement (atomic writes as the property states them — "all of a multi-word register at once"):
+
+  theorem bank_atomic_all_at_once : … (h : AscWrites c k (c.lowAdr k) 0 ds ins) →
+      (∀ pre, pre <+: ins → val after pre = old ∨ val after pre = intended c.ord …) ∧ val after ins = intended c.ord …
+
+  It FAILS for ordering = little (the commit word, word 0, then sits at the LOWEST address and is written first):
+  see the negative witness below.  Proved under the hypothesis `c.ord = .big`.
+-/
+
+/-- **Atomic multi-word write, all at once** (ordering big).  Start in any reachable state.  Software writes the
+    `n` data words `ds` of atomic storage `k` to its `n` consecutive addresses in ascending order; before, between
+    and after these writes any number of other cycles may happen (reads anywhere, writes to other registers or
+    banks, idle cycles, device activity on other registers — `Quiet`).  Then at every moment of the sequence the
+    register holds either its complete old value or the complete new value, never a mixture, and at the end it
+    holds the new value. -/
+theorem bank_atomic_all_at_once_partial (c : BankCfg) (hfit : c.Fits) (hbig : c.ord = .big) (k : Nat)
+    (hk : k < c.regs.length) (hkind : (c.spec k).kind = .storage) (hat : isAtomic c.bw (c.spec k) = true)
+    (hist : List BankIn) (ds : List Nat) (hds : ds.length = nwords c.bw (c.spec k).size) (ins : List BankIn)
+    (h : AscWrites c k (c.lowAdr k) 0 ds ins) :
+    let s := (bank c).run hist
+    let old := (s.reg k).val
+    let new := intended c.ord c.bw (c.spec k).size (nwords c.bw (c.spec k).size) ds
+    (∀ pre, pre <+: ins →
+        (((bank c).runFrom s pre).reg k).val = old ∨ (((bank c).runFrom s pre).reg k).val = new) ∧
+    (((bank c).runFrom s ins).reg k).val = new := by
+  intro s old new
+  have hraw : (c.spec k).kind ≠ .raw := by rw [hkind]; decide
+  have hn1 : 1 < nwords c.bw (c.spec k).size := by
+    have := hat; unfold isAtomic at this; simp at this; exact this.2
+  have hlow : c.lowAdr k = c.wordAdr k (nwords c.bw (c.spec k).size - 1) := by
+    unfold BankCfg.lowAdr BankCfg.wordAdr addrOf posIn
+    rw [show c.regs.getD k default = c.spec k from rfl]
+    cases hkd : (c.spec k).kind
+    · simp [hbig, wordPos]
+    · simp [hbig, wordPos]
+    · exact absurd hkd hraw
+  rw [hlow] at h
+  have hwf := run_wf c hist k hk hkind
+  have hinv : AtomicInv c k ds old 0 s :=
+    ⟨hwf.2 hat, fun p hp _ => by omega, fun _ => rfl, fun h0 => by omega⟩
+  have := atomic_seq c hfit k hk hkind hat hbig ds old hds 0 ds ins h s rfl (by omega) hinv
+  simpa [new, intended, hbig] using this
+
+/-! Non-vacuity: 16-bit atomic storage on an 8-bit bus, ordering big; software writes 0x12 to address 0, something
+    reads elsewhere, software writes 0x34 to address 1.  The hypotheses hold and the register goes 0 → 0 → 0 → 0x1234. -/
+def wr (a d : Nat) : BankIn := { bus := { adr := a, re := false, we := true, datW := d }, dev := [] }
+def rd (a : Nat) : BankIn := { bus := { adr := a, re := true, we := false, datW := 0 }, dev := [] }
+def atomic16 (ord : WordOrdering) : BankCfg :=
+  { bw := 8, ord := ord, pbits := 9, address := 0, regs := [{ kind := .storage, size := 16, atomic := true }] }
+
+example : AscWrites (atomic16 .big) 0 ((atomic16 .big).lowAdr 0) 0 [0x12, 0x34] [wr 0 0x12, rd 5, wr 1 0x34] :=
+  .write 0 0x12 [0x34] _ _ ⟨rfl, rfl, rfl, rfl⟩
+    (.quiet 1 [0x34] _ _ ⟨Or.inl rfl, rfl⟩ (.write 1 0x34 [] _ _ ⟨rfl, rfl, rfl, rfl⟩ (.done 2)))
+
+example : (atomic16 .big).Fits ∧ isAtomic 8 ((atomic16 .big).spec 0) = true ∧
+    ([[], [wr 0 0x12], [wr 0 0x12, rd 5], [wr 0 0x12, rd 5, wr 1 0x34]].map fun pre =>
+      (((bank (atomic16 .big)).run pre).reg 0).val) = [0, 0, 0, 0x1234] ∧
+    intended .big 8 16 2 [0x12, 0x34] = 0x1234 := by decide
+
+/-- **Negative witness (known finding C12-atomic-little-ordering).**  Same register, ordering little: software
+    writes 0x34 (low byte) to address 0 and 0x12 (high byte) to address 1, i.e. intends 0x1234.  The sequence
+    satisfies `AscWrites`, but after the first write the register holds 0x0034 — neither the old value 0 nor the
+    intended 0x1234 — and it still holds 0x0034 after the second write. -/
+example : AscWrites (atomic16 .little) 0 ((atomic16 .little).lowAdr 0) 0 [0x34, 0x12] [wr 0 0x34, wr 1 0x12] :=
+  .write 0 0x34 [0x12] _ _ ⟨rfl, rfl, rfl, rfl⟩ (.write 1 0x12 [] _ _ ⟨rfl, rfl, rfl, rfl⟩ (.done 2))
+
+example :
+    let c := atomic16 .little
+    let new := intended .little 8 16 2 [0x34, 0x12]
+    new = 0x1234 ∧
+    ¬ ((((bank c).run [wr 0 0x34]).reg 0).val = 0 ∨ (((bank c).run [wr 0 0x34]).reg 0).val = new) ∧
+    ¬ ((((bank c).run [wr 0 0x34, wr 1 0x12]).reg 0).val = new) := by decide
+
 /-! ## Reads -/
 
 /-- **A bus read returns the current value of the addressed word one cycle later**: whatever else happens in
@@ -213,5 +299,287 @@ theorem strobe_single_cycle (c : BankCfg) (hfit : c.Fits) (s : BankState) (i : B
       · simp [hj, hiff.mpr hj]
       · have : ¬ (i.bus.adr = c.wordAdr k (lastWord c.ord (nwords c.bw (c.spec k).size))) := fun h => hj (hiff.mp h)
         simp [hj, this]
+
+/-! ## Histories
+
+The step theorems above hold in every state.  Stated over histories (`ins` = any sequence of bus accesses
+interleaved with device-side updates, from reset): -/
+
+/-- `re` of register `k` in the cycle after history `ins ++ [i]` is high iff cycle `i` wrote the strobe word. -/
+theorem strobe_history (c : BankCfg) (hfit : c.Fits) (ins : List BankIn) (i : BankIn) (k : Nat)
+    (hk : k < c.regs.length) (hkind : (c.spec k).kind ≠ .raw) (hsz : 0 < nwords c.bw (c.spec k).size) :
+    (((bank c).run (ins ++ [i])).reg k).re =
+      (i.bus.we && decide (i.bus.adr = c.wordAdr k (lastWord c.ord (nwords c.bw (c.spec k).size)))) := by
+  rw [run_snoc]
+  exact strobe_single_cycle c hfit _ i k hk hkind hsz
+
+/-- After reset no strobe is active. -/
+theorem strobe_reset (c : BankCfg) (k : Nat) (hk : k < c.regs.length) : (((bank c).run []).reg k).re = false := by
+  show ((bank c).init.reg k).re = false
+  rw [init_reg c k hk]
+  rfl
+
+/-- The read data seen in the cycle after `ins ++ [i]` is the word addressed in cycle `i`, as it was in cycle `i`. -/
+theorem read_history (c : BankCfg) (hfit : c.Fits) (ins : List BankIn) (i : BankIn) (k j : Nat)
+    (hv : c.ValidWord k j) (hadr : i.bus.adr = c.wordAdr k j) :
+    ((bank c).run (ins ++ [i])).datR =
+      wordVal (c.spec k) (((bank c).run ins).reg k) (i.devOf k) (c.simple k j) := by
+  rw [run_snoc]
+  exact bank_read_next_cycle c hfit _ i k j hv hadr
+
+/-- **Write, then read back**: a bus write of `d` to word `j` of a non-atomic storage followed by any access to the
+    same address returns `d` (truncated to the word's width) as read data, from any state, whatever the device
+    does to other registers. -/
+theorem write_then_read (c : BankCfg) (hfit : c.Fits) (s : BankState) (iw ir : BankIn) (k j : Nat)
+    (hv : c.ValidWord k j) (hkind : (c.spec k).kind = .storage) (hna : isAtomic c.bw (c.spec k) = false)
+    (hwe : iw.bus.we = true) (hadr : iw.bus.adr = c.wordAdr k j) (hadr' : ir.bus.adr = c.wordAdr k j) :
+    ((bank c).next ((bank c).next s iw) ir).datR = trunc (wordBits c.bw (c.spec k).size j) iw.bus.datW := by
+  rw [bank_read_storage c hfit _ ir k j hv hkind hadr']
+  exact (bank_write_exact c hfit s iw k j hv hkind hna hwe hadr).1
+
+/-- In every reachable state every storage value fits its declared size. -/
+theorem storage_in_range (c : BankCfg) (ins : List BankIn) (k : Nat) (hk : k < c.regs.length)
+    (hkind : (c.spec k).kind = .storage) : (((bank c).run ins).reg k).val < 2 ^ (c.spec k).size :=
+  (run_wf c ins k hk hkind).1
+
+/-! ## Fields -/
+
+/-- **Fields sit at their declared bit offsets**, in declaration order and without overlap
+    (`CSRFieldAggregate.check_ordering_overlap`, whenever it accepts the field list). -/
+theorem field_offsets (ds : List FieldDecl) (fs : List FieldSpec) (h : resolveFields ds = some fs) :
+    List.Forall₂ FieldMatches ds fs ∧ List.Pairwise (fun f g => f.offset + f.size ≤ g.offset) fs :=
+  resolve_spec ds 0 fs h
+
+/-- A declared offset below the first free bit after the preceding fields is rejected. -/
+theorem field_overlap_rejected (pre : List FieldDecl) (fs : List FieldSpec) (d : FieldDecl) (post : List FieldDecl)
+    (o : Nat) (hpre : resolveFields pre = some fs) (ho : d.offset = some o) (hlt : o < fieldsSize fs) :
+    resolveFields (pre ++ d :: post) = none := by
+  rw [← fieldsEnd_eq_size] at hlt
+  exact resolve_overlap_rejected pre 0 fs d post o hpre ho hlt
+
+/-- What the device sees on the field signals of storage `k`: field `f` shows `storage[offset : offset+size]`;
+    a pulse field only while the write strobe is high. -/
+theorem field_values (c : BankCfg) (s : BankState) (i : BankIn) (k : Nat) (hk : k < c.regs.length)
+    (hkind : (c.spec k).kind = .storage) :
+    (((bank c).out s i).regs.getD k default).fields =
+      (c.spec k).fields.map fun f => fieldOut f (s.reg k).val (s.reg k).re := by
+  simp [bank, regOut, List.getD_eq_getElem?_getD, hk, BankCfg.spec, BankState.reg] at hkind ⊢
+  simp [hkind]
+
+theorem field_plain_value (f : FieldSpec) (storage : Nat) (re : Bool) (h : f.pulse = false) :
+    fieldOut f storage re = slice f.offset f.size storage := fieldOut_plain f storage re h
+
+/-- **Pulse fields last one cycle**: in any history, a pulse field (reset 0) of storage `k` can be non-zero only in
+    the cycle right after a bus write to the register's strobe word — i.e. for exactly one cycle per such write —
+    and then it shows its bit(s) of the value just written. -/
+theorem pulse_field_one_cycle (c : BankCfg) (hfit : c.Fits) (ins : List BankIn) (i : BankIn) (k : Nat)
+    (hk : k < c.regs.length) (hkind : (c.spec k).kind = .storage) (hsz : 0 < nwords c.bw (c.spec k).size)
+    (f : FieldSpec) (hp : f.pulse = true) (hr : f.reset = 0) :
+    let s' := (bank c).run (ins ++ [i])
+    fieldOut f (s'.reg k).val (s'.reg k).re ≠ 0 →
+      (i.bus.we = true ∧ i.bus.adr = c.wordAdr k (lastWord c.ord (nwords c.bw (c.spec k).size))) ∧
+      fieldOut f (s'.reg k).val (s'.reg k).re = slice f.offset f.size (s'.reg k).val := by
+  intro s' hne
+  have hraw : (c.spec k).kind ≠ .raw := by rw [hkind]; decide
+  obtain ⟨hre, hval⟩ := fieldOut_pulse f _ _ hp hr hne
+  rw [strobe_history c hfit ins i k hk hraw hsz] at hre
+  simp only [Bool.and_eq_true, decide_eq_true_eq] at hre
+  exact ⟨hre, hval⟩
+
+/-! ## Several banks and memory windows on one bus (`CSRBankArray`, `Interconnect`, `InterconnectShared`) -/
+
+/-- A slave that was not addressed in a cycle contributes zero to the OR-combined read data of the next cycle. -/
+theorem unselected_slaves_drive_zero (c : ArrayCfg) (s : ArrayState) (i : ArrayIn) :
+    (∀ j, j < c.banks.length → (c.banks.getD j default).sel (orBus i.masters).adr = false →
+        (((bankArray c).next s i).banks.getD j default).datR = 0) ∧
+    (∀ j, j < c.srams.length → (c.srams.getD j default).cfg.sel (orBus i.masters).adr = false →
+        sramDatR (c.srams.getD j default).cfg (((bankArray c).next s i).srams.getD j default) = 0) := by
+  constructor
+  · intro j hj hsel
+    rw [array_next_bank c s i j hj]
+    exact next_datR_unselected _ _ _ hsel
+  · intro j hj hsel
+    rw [array_next_sram c s i j hj]
+    exact sram_next_datR_unselected _ _ _ hsel
+
+/-- **The OR-combined bus returns the addressed bank's data**: if bank `j` is the only slave addressed in a cycle,
+    the read data every master sees in the next cycle is bank `j`'s read data. -/
+theorem shared_or_bus (c : ArrayCfg) (s : ArrayState) (i i' : ArrayIn) (j : Nat) (hj : j < c.banks.length)
+    (hothers : ∀ j', j' < c.banks.length → j' ≠ j → (c.banks.getD j' default).sel (orBus i.masters).adr = false)
+    (hsrams : ∀ m, m < c.srams.length → (c.srams.getD m default).cfg.sel (orBus i.masters).adr = false) :
+    ((bankArray c).out ((bankArray c).next s i) i').datR = (((bankArray c).next s i).banks.getD j default).datR := by
+  obtain ⟨hb, hm⟩ := unselected_slaves_drive_zero c s i
+  rw [array_out_datR]
+  unfold ArrayCfg.datR
+  have h1 : orList (((bankArray c).next s i).banks.map (·.datR)) =
+      (((bankArray c).next s i).banks.map (·.datR)).getD j 0 := by
+    apply orList_single
+    intro j' hne
+    by_cases hj' : j' < c.banks.length
+    · have := hb j' hj' (hothers j' hj' hne)
+      simp only [List.getD_eq_getElem?_getD, List.getElem?_map] at this ⊢
+      have hlen : j' < ((bankArray c).next s i).banks.length := by simp [bankArray, hj']
+      simp only [List.getElem?_eq_getElem hlen, Option.map_some, Option.getD_some] at this ⊢
+      exact this
+    · have hlen : ((bankArray c).next s i).banks.length ≤ j' := by simp [bankArray]; omega
+      simp [List.getD_eq_getElem?_getD, List.getElem?_eq_none hlen]
+  have h2 : orList (c.srams.mapIdx fun k m => sramDatR m.cfg (((bankArray c).next s i).srams.getD k default)) = 0 := by
+    apply orList_zero
+    intro m
+    by_cases hm' : m < c.srams.length
+    · have := hm m hm' (hsrams m hm')
+      simp only [List.getD_eq_getElem?_getD, List.getElem?_mapIdx, List.getElem?_eq_getElem hm', Option.map_some,
+        Option.getD_some] at this ⊢
+      exact this
+    · simp [List.getD_eq_getElem?_getD, List.getElem?_eq_none (Nat.le_of_not_lt hm')]
+  rw [h1, h2, Nat.or_zero]
+  have hlen : j < ((bankArray c).next s i).banks.length := by simp [bankArray, hj]
+  simp [List.getD_eq_getElem?_getD, List.getElem?_eq_getElem hlen]
+
+/-- Banks with different bank numbers (and a common page size) are never selected together. -/
+theorem bank_select_exclusive (c c' : BankCfg) (hp : c.pbits = c'.pbits) (hne : c.address ≠ c'.address) (adr : Nat)
+    (h : c.sel adr = true) : c'.sel adr = false := by
+  unfold BankCfg.sel at *
+  rw [hp] at h
+  simp only [beq_iff_eq] at h
+  simp only [beq_eq_false_iff_ne]
+  omega
+
+/-- If no slave is addressed the bus reads zero. -/
+theorem shared_or_bus_idle (c : ArrayCfg) (s : ArrayState) (i i' : ArrayIn)
+    (hbanks : ∀ j, j < c.banks.length → (c.banks.getD j default).sel (orBus i.masters).adr = false)
+    (hsrams : ∀ m, m < c.srams.length → (c.srams.getD m default).cfg.sel (orBus i.masters).adr = false) :
+    ((bankArray c).out ((bankArray c).next s i) i').datR = 0 := by
+  obtain ⟨hb, hm⟩ := unselected_slaves_drive_zero c s i
+  rw [array_out_datR]
+  unfold ArrayCfg.datR
+  have h1 : orList (((bankArray c).next s i).banks.map (·.datR)) = 0 := by
+    apply orList_zero
+    intro j'
+    by_cases hj' : j' < c.banks.length
+    · have := hb j' hj' (hbanks j' hj')
+      have hlen : j' < ((bankArray c).next s i).banks.length := by simp [bankArray, hj']
+      simp only [List.getD_eq_getElem?_getD, List.getElem?_map, List.getElem?_eq_getElem hlen, Option.map_some,
+        Option.getD_some] at this ⊢
+      exact this
+    · have hlen : ((bankArray c).next s i).banks.length ≤ j' := by simp [bankArray]; omega
+      simp [List.getD_eq_getElem?_getD, List.getElem?_eq_none hlen]
+  have h2 : orList (c.srams.mapIdx fun k m => sramDatR m.cfg (((bankArray c).next s i).srams.getD k default)) = 0 := by
+    apply orList_zero
+    intro m
+    by_cases hm' : m < c.srams.length
+    · have := hm m hm' (hsrams m hm')
+      simp only [List.getD_eq_getElem?_getD, List.getElem?_mapIdx, List.getElem?_eq_getElem hm', Option.map_some,
+        Option.getD_some] at this ⊢
+      exact this
+    · simp [List.getD_eq_getElem?_getD, List.getElem?_eq_none (Nat.le_of_not_lt hm')]
+  rw [h1, h2]
+  rfl
+
+/-- `InterconnectShared`: idle (all-zero) masters do not disturb the active one. -/
+theorem shared_idle_masters_transparent (b : Bus) (n : Nat) : orBus (b :: List.replicate n idleBus) = b :=
+  orBus_cons_idle b n
+
+/-! ## Memory windows (`csr_bus.SRAM`) -/
+
+/-- A memory window that is not addressed drives zero in the next cycle and keeps its content. -/
+theorem sram_unselected (c : SramCfg) (s : SramState) (i : SramIn) (h : c.sel i.bus.adr = false) :
+    sramDatR c ((sram c).next s i) = 0 ∧ ((sram c).next s i).mem = s.mem := by
+  refine ⟨sram_next_datR_unselected c s i h, ?_⟩
+  rw [sram_next_mem]
+  simp [h]
+
+/-- A write changes exactly the addressed memory word; reads and accesses of a read-only window change nothing. -/
+theorem sram_write_exact (c : SramCfg) (s : SramState) (i : SramIn) (a : Nat)
+    (ha : a ≠ c.clampAdr (c.portAdr i.bus.adr i.page)) :
+    ((sram c).next s i).mem.getD a 0 = s.mem.getD a 0 := by
+  rw [sram_next_mem]
+  split
+  · simp only [List.getD_eq_getElem?_getD]
+    rw [List.getElem?_set_ne (Ne.symm ha)]
+  · rfl
+
+theorem sram_read_side_effect_free (c : SramCfg) (s : SramState) (i : SramIn)
+    (h : i.bus.we = false ∨ c.readOnly = true) : ((sram c).next s i).mem = s.mem := by
+  rw [sram_next_mem]
+  cases h with
+  | inl h => simp [h]
+  | inr h => simp [h]
+
+/-- One-word-per-bus-word window (`mem.width ≤ bus width`): a write of `d` is read back in the next cycle
+    (Migen write-first port), truncated to the memory width. -/
+theorem sram_write_read (c : SramCfg) (s : SramState) (i : SramIn) (hcpm : c.cpm = 1) (hw : c.width ≤ c.bw)
+    (hro : c.readOnly = false) (hsel : c.sel i.bus.adr = true) (hwe : i.bus.we = true)
+    (hin : c.clampAdr (c.portAdr i.bus.adr i.page) < s.mem.length) :
+    sramDatR c ((sram c).next s i) = trunc c.width i.bus.datW := by
+  have hwb : c.wb = 0 := by simp [SramCfg.wb, hcpm, log2ceil]
+  rw [sram_next_read, sram_next_mem]
+  simp only [hsel, hwe, hro, hcpm, hwb, Nat.pow_zero, Nat.mod_one, Bool.not_false, Bool.and_self,
+    Nat.sub_self, beq_self_eq_true, if_true, Nat.zero_mul, Nat.one_mul]
+  rw [List.getD_eq_getElem?_getD, List.getElem?_set_self hin, Option.getD_some]
+  rw [slice_zero, trunc_trunc, trunc_trunc_le _ _ _ hw]
+  have hwr : s.wregs.reverse.map (fun w => (c.bw, w)) = [] ∨ True := Or.inr trivial
+  -- Cat(dat_w, staged words…) truncated to the memory width only keeps dat_w's low bits
+  have : trunc c.width (cat ((c.bw, i.bus.datW) :: s.wregs.reverse.map fun w => (c.bw, w))) = trunc c.width i.bus.datW := by
+    simp only [cat, trunc]
+    rw [Nat.add_mod, Nat.mul_mod, Nat.mod_eq_zero_of_dvd (Nat.pow_dvd_pow 2 hw)]
+    simp only [Nat.zero_mul, Nat.zero_mod, Nat.add_zero, Nat.mod_mod]
+    exact Nat.mod_mod_of_dvd _ (Nat.pow_dvd_pow 2 hw)
+  rw [this]
+
+/-! ## Gathering: `_sort_gathered_items` -/
+
+/-- **Fixed and automatic locations**: whenever `_sort_gathered_items` returns, the slot list is a permutation of
+    the items (each exactly once; the other slots hold `reserved` fillers), every item with a fixed location `n`
+    is in slot `n`, and no item is dropped.
+
+    Totality does not hold: `sorted_items_rejects_n_eq_len` — a fixed location equal to the running length raises
+    `IndexError` (the extension test is `item.n > items_length`); two items fixed at one location raise the
+    documented `ValueError`.  Both are rejections, not mis-built banks. -/
+theorem sorted_items (fx : List (Option Nat)) (slots : List (Option Nat)) (h : sortGathered fx = .ok slots) :
+    (somes slots).Perm (List.range fx.length) ∧
+    (∀ (i n : Nat), fx[i]? = some (some n) → slots[n]? = some (some i)) ∧
+    fx.length ≤ slots.length :=
+  sortGathered_spec fx slots h
+
+theorem sorted_items_rejects_n_eq_len : sortGathered [some 1] = .indexError := by decide
+
+/-! ## Non-vacuity
+
+A bank with a 17-bit storage (3 words), a 9-bit device-writable status… on an 8-bit bus, bank number 1 of 8-word
+pages: the hypotheses of the theorems above are satisfiable and the conclusions are non-trivial. -/
+
+def demo (ord : WordOrdering) : BankCfg :=
+  { bw := 8, ord := ord, pbits := 3, address := 1,
+    regs := [{ kind := .storage, size := 17, reset := 0x1ABCD, wfd := true,
+               fields := [{ size := 1, offset := 0, pulse := true }, { size := 3, offset := 9 }] },
+             { kind := .status, size := 9 },
+             { kind := .raw, size := 8 }] }
+
+example : (demo .big).Fits ∧ (demo .little).Fits := by decide
+/-- addresses: big → word 2 @8, word 1 @9, word 0 @10, status words @11,@12, raw @13 -/
+example : ((demo .big).wordAdr 0 2, (demo .big).wordAdr 0 0, (demo .big).wordAdr 1 0, (demo .big).wordAdr 2 0) = (8, 10, 12, 13) ∧
+    ((demo .little).wordAdr 0 2, (demo .little).wordAdr 0 0) = (10, 8) := by decide
+example : (demo .big).ValidWord 0 2 ∧ ((demo .big).spec 0).kind = .storage ∧ isAtomic 8 ((demo .big).spec 0) = false := by
+  decide
+/-- a write of 0xFF to the top word (1 bit wide) changes exactly bit 16; `re` pulses only for word 0 (address 10);
+    the pulse field follows `re`; the read data appears one cycle later -/
+example :
+    let c := demo .big
+    let run := fun ins => (bank c).run ins
+    ((run [wr 8 0x00]).reg 0).val = 0x0ABCD ∧ ((run [wr 8 0x00]).reg 0).re = false ∧
+    ((run [wr 10 0xFF]).reg 0).val = 0x1ABFF ∧ ((run [wr 10 0xFF]).reg 0).re = true ∧
+    ((run [wr 10 0xFF, rd 9]).reg 0).re = false ∧ (run [wr 10 0xFF, rd 9]).datR = 0xAB ∧
+    (run [wr 10 0xFF, rd 17]).datR = 0 ∧
+    fieldOut { size := 1, offset := 0, pulse := true } ((run [wr 10 0xFF]).reg 0).val ((run [wr 10 0xFF]).reg 0).re = 1 ∧
+    fieldOut { size := 1, offset := 0, pulse := true } ((run [wr 10 0xFF, rd 9]).reg 0).val ((run [wr 10 0xFF, rd 9]).reg 0).re = 0 := by
+  decide
+
+example : resolveFields [{ size := 1 }, { size := 2, offset := some 4 }, { size := 3 }] =
+    some [{ size := 1, offset := 0 }, { size := 2, offset := 4 }, { size := 3, offset := 6 }] ∧
+    resolveFields [{ size := 4 }, { size := 2, offset := some 3 }] = none := by decide
+
+example : sortGathered [none, some 3, none, some 0] = .ok [some 3, some 0, some 2, some 1] ∧
+    sortGathered [some 5, none] = .ok [some 1, none, none, none, none, some 0] := by decide
 
 end Litex.C12
